@@ -134,8 +134,12 @@ type sessState struct {
 		Code int    `json:"code"`
 		Sub  int    `json:"sub"`
 	} `json:"out"`
-	Hold  int `json:"hold"`
-	NSess int `json:"nsess"`
+	Hold   int        `json:"hold"`
+	NSess  int        `json:"nsess"`
+	Imp    string     `json:"imp"`
+	Exp    string     `json:"exp"`
+	Loc    []sessNLRI `json:"loc"`
+	AdjOut []string   `json:"adjout"`
 }
 
 // role numbers of RFC 9234 as used in the capability
@@ -145,6 +149,8 @@ var sessPfx = map[string]wire.NLRI{
 	"a":  {AFI: wire.AFIIPv4, Len: 16, Addr: []byte{10, 1}},
 	"b":  {AFI: wire.AFIIPv4, Len: 16, Addr: []byte{10, 2}},
 	"c6": {AFI: wire.AFIIPv6, Len: 48, Addr: []byte{0x20, 0x01, 0x0d, 0xb8, 0, 1}},
+	"o1": {AFI: wire.AFIIPv4, Len: 16, Addr: []byte{10, 50}}, // put into the Loc-RIB by another source
+	"o2": {AFI: wire.AFIIPv4, Len: 16, Addr: []byte{10, 51}},
 }
 
 func sessPfxName(p *bnet.Prefix) string {
@@ -462,7 +468,14 @@ func (s *session) observe() sessState {
 				o.AdjIn = append(o.AdjIn, sessNLRI{Pfx: sessPfxName(r.Prefix()), PID: p.BGPPath.PathIdentifier})
 			}
 		}
+		for _, r := range f.AdjRIBOutV4 {
+			o.AdjOut = append(o.AdjOut, sessPfxName(r.Prefix()))
+		}
 	}
+	if o.AdjOut == nil {
+		o.AdjOut = []string{}
+	}
+	sort.Strings(o.AdjOut)
 	return o
 }
 
@@ -537,13 +550,16 @@ func (s *session) diff(exp sessState, got sessState, subs []int, malformedEarly 
 	if k, _, _ := core.SetDiff(nlriKeys(exp.AdjIn), nlriKeys(got.AdjIn)); k != "" {
 		return "adj-rib-in", k, nlriKeys(exp.AdjIn), nlriKeys(got.AdjIn)
 	}
-	// the Loc-RIB holds exactly what the session learned while it is attached (accept-all import policy)
-	wantLoc := nlriKeys(exp.AdjIn)
-	if !exp.Attached {
-		wantLoc = []string{}
-	}
+	// the Loc-RIB holds what the session learned while it is attached and its import policy accepts, plus the other source's routes
+	wantLoc := nlriKeys(exp.Loc)
 	if k, _, _ := core.SetDiff(wantLoc, s.locrib()); k != "" {
 		return "loc-rib", k, wantLoc, s.locrib()
+	}
+	// the Adj-RIB-Out holds the other source's routes while the session is attached and its export policy accepts
+	wantOut := append([]string{}, exp.AdjOut...)
+	sort.Strings(wantOut)
+	if k, _, _ := core.SetDiff(wantOut, got.AdjOut); k != "" {
+		return "adj-rib-out", k, wantOut, got.AdjOut
 	}
 	if (exp.St == "OpenConfirm" || exp.St == "Established") && exp.Hold != got.Hold {
 		return "hold-time", "wrong", exp.Hold, got.Hold
@@ -621,6 +637,30 @@ func init() {
 					body = append(body, byte(k+1))
 				}
 				s.conn.peerSend(wire.Header(wire.TypeNotification, body))
+			case "SetImport", "SetExport":
+				ch := filter.NewAcceptAllFilterChain()
+				if st.Str("p") == "reject" {
+					ch = filter.NewDrainFilterChain()
+				}
+				class = a + ":" + st.Str("p")
+				var err error
+				if a == "SetImport" {
+					err = s.srv.ReplaceImportFilterChain(s.vrf, s.peerKey, ch)
+				} else {
+					err = s.srv.ReplaceExportFilterChain(s.vrf, s.peerKey, ch)
+				}
+				if err != nil {
+					return &core.Divergence{Step: i, Action: a, Field: "api", Kind: "error", Class: class, Got: err.Error()}
+				}
+			case "Originate", "Unoriginate":
+				w := sessPfx[st.Str("x")]
+				pfx := bnet.NewPfx(bnet.IPv4FromOctets(w.Addr[0], w.Addr[1], 0, 0), uint8(w.Len)).Ptr()
+				p := buildRibPath(ribPath{LP: 100, NH: 77, ASP: []uint32{65077}}, false, true, bnet.IPv4FromOctets(10, 0, 0, 77).Ptr(), nil)
+				if a == "Originate" {
+					s.vrf.IPv4UnicastRIB().AddPath(pfx, p)
+				} else {
+					s.vrf.IPv4UnicastRIB().RemovePath(pfx, p)
+				}
 			case "HoldExpires":
 				server.VerifAgeHoldTimer(s.srv, s.vrf, s.peerKey, time.Hour)
 				wait = 10 * time.Second // the periodic check runs once per second and competes with the keepalive timer
